@@ -1092,16 +1092,32 @@ func (c *Ctx) presetHeadersSurviveInterim() {
 		c.Fail(rule, construct, p.InstrPos(site), w.Key+".Header does not restore a snapshot of the headers set before proxying: "+lost)
 		return
 	}
-	// the snapshot is taken from the client's writer at creation
+	// the snapshot is taken from the client's writer where the wrapper is created — before the proxy
+	// has put anything into the map — and is never replaced or dropped afterwards: a snapshot taken
+	// when the first interim response arrives already contains that response's own headers (they
+	// would be "restored" onto the final response), one discarded after the first restore leaves
+	// nothing for a second interim response
 	taken := false
+	late := ""
 	for _, fn := range p.Funcs {
 		instrsOf(fn, func(in ssa.Instruction) {
-			if k, st := storeKey(in); k == snap {
-				if call, ok := stripConv(st.Val).(*ssa.Call); ok && CalleeName(call) == "(net/http.Header).Clone" {
-					taken = true
-				}
+			k, st := storeKey(in)
+			if k != snap {
+				return
+			}
+			isMethod := fn.Signature.Recv() != nil && namedOf(fn.Signature.Recv().Type()) != nil && types.Identical(namedOf(fn.Signature.Recv().Type()), w.Named)
+			if isMethod {
+				late = p.InstrPos(st) + ": " + p.FuncKey(fn) + " assigns the header snapshot (" + p.Desc(st.Val, nil) + ") after the wrapper was created"
+				return
+			}
+			if call, ok := stripConv(st.Val).(*ssa.Call); ok && CalleeName(call) == "(net/http.Header).Clone" {
+				taken = true
 			}
 		})
+	}
+	if late != "" {
+		c.Fail(rule, construct, p.InstrPos(site), late+": the snapshot must be the headers present before proxying, kept for the whole exchange — "+lost)
+		return
 	}
 	// WriteHeader notes the interim response
 	noted := false
